@@ -154,7 +154,7 @@ def collision_scripts(rng, n):
     tunes = ["error", "success", "notify", "siren", "alarm"]
     prev_tune = None
     for k in range(n):
-        kind = k % 6
+        kind = k % 7
         L = [HDR.rstrip("\n")]
         if kind == 0:
             # same helper name / parameter text / call signatures, different bodies
@@ -167,8 +167,8 @@ def collision_scripts(rng, n):
         elif kind == 1:
             # the same tune from setup(), from the main loop, from a helper; explicit / default / run-time tempo
             tune = rng.choice(tunes)
-            where = ["loop", "setup", "def", "setup-tempo", "loop-tempo"][(k // 6) % 5]
-            if (k // 6) % 5 == 1:
+            where = ["loop", "setup", "def", "setup-tempo", "loop-tempo"][(k // 7) % 5]
+            if (k // 7) % 5 == 1:
                 tune = prev_tune or tune   # the same tune from setup() right after it was played from the main loop
             prev_tune = tune
             L += ["bz = Buzzer(8)"]
@@ -201,6 +201,18 @@ def collision_scripts(rng, n):
             v = {"int": "3", "float": "2.5", "str": '"ab"', "bool": "True"}[t]
             L += [f"value = {v}", "def show(x):\n    mon.write(x)\n    return x", "kept = show(value)", "other = value", "mon.write(other)",
                   "for i in range(2):", f"    inner = {v}", "    mon.write(inner)"]
+        elif kind == 6:
+            # several buttons whose pins tie (one physical pin, or pins only known at run time): their polls keep a fixed order
+            names = rng.sample(["btn_up", "b", "zz_stop", "alpha", "key9", "Select", "_esc", "btn_down", "ok"], 3)
+            pin_form = rng.choice(["same", "runtime"])
+            L += ["def hit():\n    mon.write(\"hit\")", "def other():\n    mon.write(\"other\")"]
+            if pin_form == "runtime":
+                L += ["base = analog_read(0) % 2 + 2"]
+            for j, nm in enumerate(names):
+                pin = "2" if pin_form == "same" else f"base + {j}"
+                cb = ["", ", on_click=hit", ", on_click=other"][j % 3]
+                L += [f"{nm} = Button({pin}{cb})"]
+            L += ["while True:", f"    mon.write({names[0]}.is_pressed())", "    sleep(10)"]
         else:
             # glyph / pattern / device state names reused with other contents
             rows = [rng.choice([0, 31, 17, 4]) for _ in range(8)]
@@ -266,5 +278,5 @@ def mixed(seed_parts, n_prog=30, n_promo=20, n_dev=10):
     scripts += lcd_scripts(rng, max(3, n_dev // 2))
     scripts += string_scripts(rng, max(3, n_dev // 2))
     scripts += context_scripts(rng, max(8, n_dev))
-    scripts += collision_scripts(rng, max(24, 3 * n_dev))
+    scripts += collision_scripts(rng, max(28, 3 * n_dev))
     return scripts
